@@ -130,6 +130,7 @@ Proof.
     destruct (untouched_cases vr pvr i src prev HW ltac:(congruence) Hsrc Hprev) as [Eq|(Us & Upv & Hprevrow)].
     + (* the row is the same in both grids: nothing is emitted *)
       subst prev. rewrite Ewpw, row_diff_self. cbn [bind].
+      rewrite (clears_wrap_self (gcols (g R)) src (row_wf_wide_full src (sr_wf _ _ Sok))). cbn [negb]. rewrite andb_true_r.
       destruct (Tail l r c a [] Hcv Pa (plays_nil _) Gi ltac:(auto)) as (ts2 & r2 & c2 & a2 & l2 & E2 & P2 & C2 & Pa2 & Hall).
       rewrite !app_nil_r in E2. cbn [app] in P2. rewrite app_nil_r.
       exists ts2, r2, c2, a2, l2. auto.
@@ -141,6 +142,7 @@ Proof.
       destruct (row_diff_paints_eq R i src prev l r c a ltac:(lia) Sok Pok Hcv Pa Gi Us Upv)
         as (ts & r1 & c1 & a1 & -> & P1 & C1 & Pa1).
       cbn [bind].
+      replace (wrapped prev && negb (clears_wrap (gcols (g R)) src prev)) with (wrapped prev) by (rewrite Upv; reflexivity).
       assert (len l = grows (g R)) as Ll by apply Hcv.
       destruct (Tail (set_at l i src) r1 c1 a1 ts C1 Pa1 P1) as (ts2 & r2 & c2 & a2 & l2 & E2 & P2 & C2 & Pa2 & Hall).
       { rewrite get_set_at. destruct (N.eqb_spec i i); [|lia]. destruct (N.ltb_spec i (len l)); [reflexivity|lia]. }
